@@ -121,6 +121,8 @@ pub struct World {
     pub skew_ppt: Vec<u64>,
     pub lag_ns: Vec<u64>,
     pub stalled_until: Vec<u64>,
+    /// every Feed sent: (sender addr, receiver addr, addresses the sender held as active when it sent it)
+    pub feed_log: Vec<(u16, u16, Vec<u16>)>,
 }
 
 impl World {
@@ -151,6 +153,7 @@ impl World {
             skew_ppt: vec![1000; n],
             lag_ns: vec![0; n],
             stalled_until: vec![0; n],
+            feed_log: Vec::new(),
             wc,
         }
     }
@@ -264,6 +267,15 @@ impl World {
             eprintln!("    -> {:?}", rec.result);
             for e in &rec.fx {
                 eprintln!("    {}", crate::script::describe_effect(e, codec));
+            }
+        }
+        // remember what every Feed could have told its receiver
+        for (to, data) in rec.sends() {
+            if let Ok(pd) = parse_datagram(codec, data) {
+                if matches!(pd.header.message, foca::Message::Feed) {
+                    let known: Vec<u16> = self.procs[i].as_ref().map(|p| p.obs.active.iter().map(|m| m.id().addr).collect()).unwrap_or_default();
+                    self.feed_log.push((addr, to.addr, known));
+                }
             }
         }
         // route effects
